@@ -4,6 +4,7 @@ import Verif.Proofs.SortRef
 import Verif.Proofs.GatherPerm
 import Verif.Proofs.OrderIndep
 import Verif.Proofs.NamesPerm
+import Verif.Proofs.KeysApartCanon
 
 /-!
 # C07 — the order-sensitive functions of Flatten are deterministic
@@ -155,6 +156,14 @@ theorem namesFromKey_order_independent (x : Flatten.Ext) (s : List String) (fl :
     (names : List String) (h : Flatten.namesFromKey x s fl ops = .ok names) :
     Flatten.namesFromKey x s fl ops' = .ok names :=
   Proofs.NamesPerm.namesFromKey_perm x s fl hp hn names h
+
+/-- the hypothesis `KeysApart` of the theorems above is met by every reference map whose keys have pairwise
+    different token paths that spell their numerals canonically (`"7"`, never `"07"`) — as the analyzer writes
+    array indices; only property or definition *names* such as `07` next to `7` fall outside -/
+theorem keysApart_of_canonical_tokens (l : List (String × String))
+    (hd : l.Pairwise fun a b => Replace.keyTokens a.1 ≠ Replace.keyTokens b.1)
+    (hc : ∀ a ∈ l, ∀ t ∈ Replace.keyTokens a.1, Proofs.MoveBase.CanonTok t) : l.Pairwise KeysApart :=
+  Proofs.KeysApartCanon.keysApart_of_canon l hd hc
 
 /-! non-vacuity: two keys one of which lies inside the other are apart, and the two orders of updating a `$ref`
     with a `$ref`-holding sibling agree on a concrete document -/
